@@ -596,6 +596,10 @@ func (fx *FuncCtx) stepTypeAssert(st *State, x *ssa.TypeAssert) {
 		n := "impl$" + sanitize(shortTypeName(x.AssertedType))
 		fx.u.uf(n, "(declare-fun "+n+" (Int) Bool)")
 		okT = and("(not (= (if_tag "+v.T+") 0))", "("+n+" (if_tag "+v.T+"))")
+		if ai, ok := x.AssertedType.Underlying().(*types.Interface); ok && types.Implements(x.X.Type(), ai) {
+			// the static type already has every method asked for: only a nil value fails
+			okT = "(not (= (if_tag " + v.T + ") 0))"
+		}
 		// concrete types known to implement / not implement the interface
 		for _, k := range fx.u.tagOrder {
 			_ = k
